@@ -1574,7 +1574,7 @@ pub fn run(args: &Args, sh: &mut Shard) {
         sh.evaluations = 1;
         return;
     }
-    let n = if args.is_miri() { 64 } else { args.scaled(if args.thorough() { 200_000 } else { 8_000 }) };
+    let n = if args.is_miri() { 32 } else { args.scaled(if args.thorough() { 200_000 } else { 8_000 }) };
     let mut k = args.shard;
     while k < n {
         // stride coprime to 10 so that every shard sees every device
